@@ -50,7 +50,7 @@ def rand_extra(rng, depth=0):
 	return [rand_extra(rng, depth + 1) for _ in range(rng.randint(0, 3))]
 
 
-def gen_case(rng, k=None):
+def gen_case(rng, k=None, force_n=None, force_idk=None):
 	from gambit.kmers import KmerSpec
 	from gambit.sigs.base import SignatureArray, SignatureList, AnnotatedSignatures, SignaturesMeta
 	k = k or rng.randint(1, 32)
@@ -58,7 +58,7 @@ def gen_case(rng, k=None):
 	ks = KmerSpec(k, prefix)
 	dt = ks.index_dtype
 	top = 4 ** k - 1
-	n = rng.choice([1, 1, 2, 3, 5, 10, 30])
+	n = force_n or rng.choice([1, 1, 2, 3, 5, 10, 30])
 	sigs = []
 	for i in range(n):
 		c = rng.random()
@@ -75,12 +75,12 @@ def gen_case(rng, k=None):
 		sigs = [np.array([], dtype=dt) for _ in range(n)]   # all-empty collection
 	base_kind = rng.choice(['sigarray', 'siglist'])
 	base = SignatureArray(sigs, ks, dtype=dt) if base_kind == 'sigarray' else SignatureList(list(sigs), ks, dtype=dt)
-	annotated = rng.random() < 0.7
+	annotated = rng.random() < 0.7 or force_idk is not None
 	idk = 'default'
 	ids = None
 	meta = None
 	if annotated:
-		idk = rng.choice(['default', 'str', 'pyint', 'int32', 'uint64', 'npstr'])
+		idk = force_idk or rng.choice(['default', 'str', 'pyint', 'int32', 'uint64', 'npstr'])
 		if idk == 'str':
 			pool = list(STRS) + [f'id{j}' for j in range(40)]
 			rng.shuffle(pool)
@@ -423,9 +423,27 @@ def run_shard(sh, ctx):
 				check_roundtrip(ctx, obj, sigs, ks, ids, meta, comp, desc, ctx.workdir / f'k{k}.gs')
 		return
 	fd0 = nfds()
+	prev = None
 	for i in range(sh['n']):
-		obj, sigs, ks, ids, meta, comp, desc = gen_case(rng)
-		check_roundtrip(ctx, obj, sigs, ks, ids, meta, comp, desc, ctx.workdir / f'c{i}.gs')
+		# history: a few paths are reused over and over in this process; every third case is a *different* collection with the same
+		# number of signatures and the same kind of ids as the previous one, written to the same path
+		if prev is not None and i % 3 == 2:
+			obj, sigs, ks, ids, meta, comp, desc = gen_case(rng, force_n=prev[0], force_idk=prev[1] if prev[1] != 'default' else 'str')
+			path = prev[2]
+			ctx.count('same_path_same_shape_rewrites')
+		else:
+			obj, sigs, ks, ids, meta, comp, desc = gen_case(rng)
+			path = ctx.workdir / f'c{i % 4}.gs'
+		prev = (len(sigs), desc['id_kind'], path)
+		if i % 5 == 1:
+			# a write that fails part-way (ids of an unsupported kind are rejected after the attributes were written) to the same path first
+			from gambit.sigs.base import dump_signatures, AnnotatedSignatures, SignatureList
+			try:
+				dump_signatures(str(path), AnnotatedSignatures(SignatureList(list(sigs), ks, dtype=ks.index_dtype), [0.5 + j for j in range(len(sigs))]))
+				ctx.count('float_ids_accepted')
+			except Exception:
+				ctx.count('failing_writes_interleaved')
+		check_roundtrip(ctx, obj, sigs, ks, ids, meta, comp, desc, path)
 	ctx.notes['fd_growth_over_roundtrips'] = nfds() - fd0
 
 
@@ -433,7 +451,7 @@ def finalize(merged, tier, seed, inconclusive):
 	c = merged['counters']
 	need = ['k_width:uint8', 'k_width:uint16', 'k_width:uint32', 'k_width:uint64', 'container:sigarray', 'container:siglist', 'container:sigarray+annotated', 'container:siglist+annotated',
 	        'ids:str', 'ids:pyint', 'ids:uint64', 'ids:default', 'compression:None/None', 'compression:lzf/None', 'compression:gzip/9', 'compression:gzip/0',
-	        'foreign:empty', 'foreign:fasta', 'foreign:hdf5-datasets-only', 'foreign:magic+zeros', 'foreign:sqlite', 'refused:SignaturesFileError', 'cli_info_files', 'cli_foreign_files']
+	        'foreign:empty', 'foreign:fasta', 'foreign:hdf5-datasets-only', 'foreign:magic+zeros', 'foreign:sqlite', 'refused:SignaturesFileError', 'cli_info_files', 'cli_foreign_files', 'same_path_same_shape_rewrites']
 	for n in need:
 		if c.get(n, 0) == 0:
 			inconclusive.append(f'class never observed: {n}')
